@@ -65,7 +65,7 @@ func snapshot(dir string) map[string]string {
 			return nil
 		}
 		rel, _ := filepath.Rel(dir, p)
-		if rel == "." || rel == "mage_output_file.go" {
+		if rel == "." || rel == "mage_output_file.go" || rel == "magefiles/mage_output_file.go" {
 			return nil
 		}
 		if fi.IsDir() {
@@ -130,6 +130,11 @@ func c09(c *Ctx) {
 		"README.md": "# readme\n", "data.bin": string(randBytes(r, 3000)), "sub/nested.txt": "nested\n", "helper.go": "package main\n\nvar helper = 1\n",
 		"zz_test.go": "//go:build mage\n\npackage main\n"})
 	os.Chmod(filepath.Join(proj, "data.bin"), 0o600)
+	// the same project in the magefiles-directory layout: the generated file then lives in <proj>/magefiles
+	flat := proj
+	projMf := filepath.Join(root, "projmf")
+	writeFiles(projMf, map[string]string{"go.mod": goMod("c09proj"), "magefiles/magefile.go": strings.Replace(c09Magefile, "//go:build mage\n\n", "", 1), "tools/tools.go": c09Tools,
+		"README.md": "# readme\n", "sub/nested.txt": "nested\n", "magefiles/notes.txt": "notes\n"})
 	env := baseEnv(home)
 	// reference generated file
 	runCmd(proj, env, mageBin, "-keep", "ok")
@@ -144,7 +149,7 @@ func c09(c *Ctx) {
 
 	type fault struct{ name, model string }
 	faults := []fault{{"none", "none"}, {"none", "none"}, {"none", "none"}, {"go:version", "exeName"}, {"go:env", "goEnv"}, {"go:list", "parse"}, {"go:build", "compile"},
-		{"rlimit-write", "gen:write"}, {"strace-chtimes", "gen:chtimes"}, {"proj:syntax", "parse"}, {"proj:collision", "parse"}, {"proj:typeerror", "compile"}, {"proj:nofiles", "noFiles"}}
+		{"rlimit-write", "gen:write"}, {"strace-chtimes", "gen:chtimes"}, {"strace-create", "gen:create"}, {"proj:syntax", "parse"}, {"proj:collision", "parse"}, {"proj:typeerror", "compile"}, {"proj:nofiles", "noFiles"}}
 	targets := []struct {
 		word   string
 		status int
@@ -157,7 +162,11 @@ func c09(c *Ctx) {
 	cacheN := 0
 	for i := 0; i < c.N; i++ {
 		f := faults[r.Intn(len(faults))]
-		if f.name == "strace-chtimes" && !haveStrace {
+		proj, genDir, mfRel := flat, flat, "magefile.go"
+		if r.Chance(1, 4) && !strings.HasPrefix(f.name, "proj:nofiles") {
+			proj, genDir, mfRel = projMf, filepath.Join(projMf, "magefiles"), "magefiles/magefile.go"
+		}
+		if strings.HasPrefix(f.name, "strace-") && !haveStrace {
 			f = faults[0]
 		}
 		tg := targets[r.Intn(len(targets))]
@@ -168,15 +177,18 @@ func c09(c *Ctx) {
 		lo := leftovers[r.Intn(len(leftovers))]
 		// a project fault replaces the magefile for this case
 		orig := c09Magefile
+		if proj == projMf {
+			orig = strings.Replace(c09Magefile, "//go:build mage\n\n", "", 1)
+		}
 		switch f.name {
 		case "proj:syntax":
-			os.WriteFile(filepath.Join(proj, "magefile.go"), []byte(strings.Replace(orig, "func Ok() {", "func Ok( {", 1)), 0o644)
+			os.WriteFile(filepath.Join(proj, mfRel), []byte(strings.Replace(orig, "func Ok() {", "func Ok( {", 1)), 0o644)
 		case "proj:collision":
-			os.WriteFile(filepath.Join(proj, "magefile.go"), []byte(orig+"\nfunc OK() {}\n"), 0o644)
+			os.WriteFile(filepath.Join(proj, mfRel), []byte(orig+"\nfunc OK() {}\n"), 0o644)
 		case "proj:typeerror":
-			os.WriteFile(filepath.Join(proj, "magefile.go"), []byte(strings.Replace(orig, "fmt.Println(\"CALL ok\")", "var x int = \"s\"; fmt.Println(x)", 1)), 0o644)
+			os.WriteFile(filepath.Join(proj, mfRel), []byte(strings.Replace(orig, "fmt.Println(\"CALL ok\")", "var x int = \"s\"; fmt.Println(x)", 1)), 0o644)
 		case "proj:nofiles":
-			os.Rename(filepath.Join(proj, "magefile.go"), filepath.Join(proj, "magefile.go.off"))
+			os.Rename(filepath.Join(proj, mfRel), filepath.Join(proj, mfRel+".off"))
 		}
 		cacheN++
 		cacheDir := filepath.Join(root, fmt.Sprintf("cache%d", cacheN))
@@ -209,8 +221,8 @@ func c09(c *Ctx) {
 			default:
 				content = ref[:lo]
 			}
-			os.WriteFile(filepath.Join(proj, "mage_output_file.go"), content, 0o644)
-			leftover = classifyMain(proj, fullSize)
+			os.WriteFile(filepath.Join(genDir, "mage_output_file.go"), content, 0o644)
+			leftover = classifyMain(genDir, fullSize)
 		}
 		before := snapshot(proj)
 		argv := []string{}
@@ -232,26 +244,34 @@ func c09(c *Ctx) {
 		case f.name == "strace-chtimes":
 			argv = append(argv, tg.word)
 			// only system calls naming the generated file are intercepted: os.Chtimes in GenerateMainfile
-			rr = runCmd(proj, runEnv, "strace", append([]string{"-f", "-o", "/dev/null", "-P", filepath.Join(proj, "mage_output_file.go"), "-P", "mage_output_file.go", "-e", "trace=utimensat", "-e", "inject=utimensat:error=EPERM", mageBin}, argv...)...)
+			rr = runCmd(proj, runEnv, "strace", append([]string{"-f", "-o", "/dev/null", "-P", filepath.Join(genDir, "mage_output_file.go"), "-P", "mage_output_file.go", "-P", "magefiles/mage_output_file.go", "-e", "trace=utimensat", "-e", "inject=utimensat:error=EPERM", mageBin}, argv...)...)
+		case f.name == "strace-create":
+			argv = append(argv, tg.word)
+			// os.Create of the generated file fails (the only openat with O_CREAT on that path is mage's)
+			rr = runCmd(proj, runEnv, "strace", append([]string{"-f", "-o", "/dev/null", "-P", filepath.Join(genDir, "mage_output_file.go"), "-P", "mage_output_file.go", "-P", "magefiles/mage_output_file.go", "-e", "trace=openat", "-e", "inject=openat:error=EACCES", mageBin}, argv...)...)
 		default:
 			argv = append(argv, tg.word)
 			rr = runCmd(proj, runEnv, mageBin, argv...)
 		}
 		after := snapshot(proj)
-		impl := J{"status": rr.status, "main": classifyMain(proj, fullSize), "others": diffSnap(before, after), "ran": strings.Contains(rr.stdout, "CALL ok")}
+		impl := J{"status": rr.status, "main": classifyMain(genDir, fullSize), "others": diffSnap(before, after), "ran": strings.Contains(rr.stdout, "CALL ok")}
 		// "ran" is only observable for the ok target; for the others compare status only
 		in := J{"op": "c09.run", "fault": f.model, "keep": keep, "force": force, "hashfast": hashfast, "cached": cached, "leftover": leftover, "target": tg.status, "word": tg.word}
 		if tg.word != "ok" {
 			impl["ran"] = "<n/a>"
 			in["noran"] = true
 		}
-		c.Emit(in, impl, "fault="+f.name, "leftover="+leftover, fmt.Sprintf("keep=%v", keep), fmt.Sprintf("hashfast=%v cached=%v force=%v", hashfast, cached, force), "target="+tg.word)
+		layout := "flat"
+		if proj == projMf {
+			layout = "magefilesdir"
+		}
+		c.Emit(in, impl, "layout="+layout, "fault="+f.name, "leftover="+leftover, fmt.Sprintf("keep=%v", keep), fmt.Sprintf("hashfast=%v cached=%v force=%v", hashfast, cached, force), "target="+tg.word)
 		// restore
-		os.Remove(filepath.Join(proj, "mage_output_file.go"))
+		os.Remove(filepath.Join(genDir, "mage_output_file.go"))
 		if f.name == "proj:nofiles" {
-			os.Rename(filepath.Join(proj, "magefile.go.off"), filepath.Join(proj, "magefile.go"))
+			os.Rename(filepath.Join(proj, mfRel+".off"), filepath.Join(proj, mfRel))
 		} else if strings.HasPrefix(f.name, "proj:") {
-			os.WriteFile(filepath.Join(proj, "magefile.go"), []byte(orig), 0o644)
+			os.WriteFile(filepath.Join(proj, mfRel), []byte(orig), 0o644)
 		}
 		os.RemoveAll(cacheDir)
 	}
